@@ -8,25 +8,29 @@
 EXTENDS SITypes, TLC
 Nm(t) == "N" \o ToString(t)
 F(name, ref, tn, docs) == [name |-> name, ty |-> ref, tn |-> tn, docs |-> docs]
-ShapeDef(t, cs) ==
+ShapeDef(t, cs, sel) ==
   LET k == Len(cs) IN
-  CASE k = 0 /\ t % 3 = 0 -> [tag |-> "primitive", prim |-> "u8"]
-    [] k = 0 /\ t % 3 = 1 -> [tag |-> "composite", fields |-> <<>>]
-    [] k = 0 /\ t % 3 = 2 -> [tag |-> "variant", variants |-> <<[name |-> "A", fields |-> <<>>, index |-> 7, docs |-> <<"dv">>]>>]
-    [] k = 1 /\ t % 4 = 0 -> [tag |-> "sequence", ty |-> cs[1]]
-    [] k = 1 /\ t % 4 = 1 -> [tag |-> "array", len |-> 3, ty |-> cs[1]]
-    [] k = 1 /\ t % 4 = 2 -> [tag |-> "compact", ty |-> cs[1]]
-    [] k = 1 /\ t % 4 = 3 -> [tag |-> "composite", fields |-> <<F(<<"x">>, cs[1], <<"X">>, <<"fx">>)>>]
-    [] k = 2 /\ t % 4 = 0 -> [tag |-> "bitsequence", store |-> cs[1], order |-> cs[2]]
-    [] k = 2 /\ t % 4 = 1 -> [tag |-> "tuple", tys |-> <<cs[1], cs[2]>>]
-    [] k = 2 /\ t % 4 = 2 -> [tag |-> "variant", variants |->
+  CASE k = 0 /\ sel % 3 = 0 -> [tag |-> "primitive", prim |-> "u8"]
+    [] k = 0 /\ sel % 3 = 1 -> [tag |-> "composite", fields |-> <<>>]
+    [] k = 0 /\ sel % 3 = 2 -> [tag |-> "variant", variants |-> <<[name |-> "A", fields |-> <<>>, index |-> 7, docs |-> <<"dv">>]>>]
+    [] k = 1 /\ sel % 4 = 0 -> [tag |-> "sequence", ty |-> cs[1]]
+    [] k = 1 /\ sel % 4 = 1 -> [tag |-> "array", len |-> 3, ty |-> cs[1]]
+    [] k = 1 /\ sel % 4 = 2 -> [tag |-> "compact", ty |-> cs[1]]
+    [] k = 1 /\ sel % 4 = 3 -> [tag |-> "composite", fields |-> <<F(<<"x">>, cs[1], <<"X">>, <<"fx">>)>>]
+    [] k = 2 /\ sel % 4 = 0 -> [tag |-> "bitsequence", store |-> cs[1], order |-> cs[2]]
+    [] k = 2 /\ sel % 4 = 1 -> [tag |-> "tuple", tys |-> <<cs[1], cs[2]>>]
+    [] k = 2 /\ sel % 4 = 2 -> [tag |-> "variant", variants |->
                                 << [name |-> "A", fields |-> <<F(<<>>, cs[1], <<>>, <<>>)>>, index |-> 1, docs |-> <<>>],
                                    [name |-> "B", fields |-> <<F(<<"b">>, cs[2], <<"Tb">>, <<"d1", "d2">>)>>, index |-> 0, docs |-> <<"vb">>] >>]
-    [] k = 2 /\ t % 4 = 3 -> [tag |-> "composite", fields |-> <<F(<<"y">>, cs[2], <<>>, <<>>)>>]
+    [] k = 2 /\ sel % 4 = 3 -> [tag |-> "composite", fields |-> <<F(<<"y">>, cs[2], <<>>, <<>>)>>]
     [] k = 3 -> [tag |-> "variant", variants |->
                                 << [name |-> "A", fields |-> <<F(<<>>, cs[2], <<>>, <<>>), F(<<>>, cs[3], <<"T3">>, <<>>)>>, index |-> 9, docs |-> <<>>] >>]
-ShapeParams(t, cs) == IF Len(cs) = 2 /\ t % 4 = 3
+ShapeParams(t, cs, sel) == IF Len(cs) = 2 /\ sel % 4 = 3
                       THEN <<[name |-> "T", ty |-> Some(cs[1])], [name |-> "U", ty |-> None]>>
+                      ELSE IF Len(cs) = 2 /\ sel % 4 = 2        \* a skipped parameter BEFORE one that carries a type
+                      THEN <<[name |-> "S", ty |-> None], [name |-> "T", ty |-> Some(cs[2])]>>
                       ELSE IF Len(cs) = 3 THEN <<[name |-> "T", ty |-> Some(cs[1])]>> ELSE <<>>
-ShapeBody(t, cs) == [path |-> <<"m", Nm(t)>>, params |-> ShapeParams(t, cs), def |-> ShapeDef(t, cs), docs |-> <<"doc " \o Nm(t)>>]
+\* `sel` selects among the shapes available for Len(cs) references; callers derive it from the node and its
+\* children so that every shape occurs already in 3-node graphs
+ShapeBody(t, cs, sel) == [path |-> <<"m", Nm(t)>>, params |-> ShapeParams(t, cs, sel), def |-> ShapeDef(t, cs, sel), docs |-> <<"doc " \o Nm(t)>>]
 =============================================================================
